@@ -301,17 +301,42 @@ def check(rep):
         d = layers.mol_diff(mo, io)
         if d:
             rep.fail("correspondence", f"molecule layer on {t!r}: " + "; ".join(d[:3]), {"layer": "molecule", "text": t}, expected=str(mo)[:300], observed=str(io)[:300])
+    # tie K on whole systems: generated systems (with and without caller-supplied mass) and byte-level mutations of them
+    import sysrun
+    syss = []
+    for _ in range(60 if quick else 2500):
+        text, smw, kinds, pct, S = sysrun.make_system(rnd, allow_open=True)
+        syss.append((text, smw))
+        for _ in range(3):
+            k = rnd.randrange(len(text))
+            syss.append((text[:k] + rnd.choice("{}[];,|$<>. 1%") + text[k:], smw))
+            syss.append((text[:k] + text[k + 1:], smw))
+    syss += [("", None), ("CC", None), ("CC.|5|", None), ("CC.|50%|CCO.|50%|", None), ("CC.|50%|CCO.|50%|", 1000.0), ("CC.|50%|CCO.|60%|", 1000.0), ("CC.|50", None), ("CC.|500|CCO.|300|", 900.0), ("CC.|x|CCO", None)]
+    sys_hist = {}
+    for (t, smw), o in zip(syss, fw.run_driver([layers.system_line(t, smw) for t, smw in syss])):
+        evaluations += 1
+        mo, io = layers.parse_model_system(o), layers.impl_system(t, smw)
+        k = "accepted" if isinstance(io, dict) else io[0] + ":" + io[1]
+        sys_hist[k] = sys_hist.get(k, 0) + 1
+        if isinstance(io, tuple) and io[0] == "TIMEOUT":
+            rep.fail("oracle", f"System({t!r}) does not terminate within 20 s", {"text": t, "operator": "byte_mutation", "system": True}, expected="termination", observed="timeout")
+            continue
+        d = layers.system_diff(mo, io)
+        if d:
+            rep.fail("correspondence", f"system layer on {t!r} (system_molweight={smw}): " + "; ".join(d[:3]), {"layer": "system", "text": t, "system_molweight": smw, "system": True},
+                     expected=str(mo)[:300], observed=str(io)[:300])
     rep.coverage.update({"evaluations": evaluations, "distinct_nontrivial": len(distinct), "valid_instances": len(base), "operators": [o.__name__ for o in OPS],
+                         "system_texts_vs_model": len(syss), "system_outcomes": dict(sorted(sys_hist.items())),
                          "molecule_texts_vs_model": len(mols_k), "molecule_outcomes": dict(sorted(mol_hist.items())),
                          "object_texts_vs_model": len(objs), "object_outcomes": dict(sorted(obj_hist.items())),
                          "operator_outcomes": dict(sorted(ophist.items())), "byte_mutations": muts, "token_texts_vs_model": len(toks),
                          "rule": "every valid instance (documented + structured generator) x 12 breaking operators (one rule violated at a random position) + terminal-list and "
                                  "system-level probes + byte-level mutations (insert / delete / replace / duplicate) under a 2 s limit; distinct_nontrivial = distinct (operator, broken text)",
                          "samples": [{"text": op_paren(random.Random(1), base[0])[0], "operator": "op_paren"}, {"text": "CC.|50", "operator": "system_unclosed_specifier"}]})
-    rep.assumptions = ["termination is a theorem for the descriptor parser, the token parser, the stochastic-object parser, the molecule parser and the system splitting loop (models tied by "
+    rep.assumptions = ["termination is a theorem for the descriptor parser, the token parser, the stochastic-object parser, the molecule parser and the system parser (models tied by "
                        "correspondence); on the implementation it is additionally checked by byte-level mutations under a time limit",
                        "an exception raised inside a distribution constructor while parsing its parameters (ast.literal_eval, float) is outside the model: such texts are not compared"]
-    return fw.finish(rep, coq, fw.COMMON_TRUSTED + ["modelled, not verified: bond.py:26-118, token.py:37-199, stochastic.py:24-141, mixture.py:25-52, molecule.py:22-152, system.py:105-126 (splitting loop)"],
+    return fw.finish(rep, coq, fw.COMMON_TRUSTED + ["modelled, not verified: bond.py:26-118, token.py:37-199, stochastic.py:24-141, mixture.py:25-52, molecule.py:22-152, system.py:15-140"],
                      "make -C coq Props/C15.vo (coqc 8.16.1, full .vo build) + Print Assumptions audit")
 
 
